@@ -160,9 +160,15 @@ func (c *aliasCtx) history(nops int) string {
 				}
 				desc = fmt.Sprintf("#%d.CreateRow(%s)", t, describe(input))
 				op = fmt.Sprintf("HCreate %d %s", t, gin)
+				argBefore := fmt.Sprintf("%#v", input)
 				row, err := c.objs[t].tpl.CreateRow(input)
 				if err == nil && row != nil {
 					newObj.row = row
+				}
+				// the argument belongs to the caller: CreateRow reads it and leaves it as it was
+				c.rep.OracleChecks["C15"]++
+				if argAfter := fmt.Sprintf("%#v", input); argAfter != argBefore {
+					c.violate("C15", fmt.Sprintf("alias: CreateRow changed its argument: %s -> %s", argBefore, argAfter), map[string]interface{}{"stream": "alias", "history": strings.Join(append(append([]string{}, hist...), desc), " ; ")})
 				}
 			case 8, 9:
 				t, src := c.pick(true), c.pick(false)
